@@ -3,6 +3,7 @@ CONSTANTS
   MaxDepth = 1
   MaxArts = 4
   MaxSteps = 5
+  NNames = 2
   NTexts = 1
   GenDepth = 99
   Ops = {"mkcat","post","delart"}
